@@ -183,6 +183,148 @@ Section Read.
     unfold view. destruct (has_q1 RD a) eqn:Hq; [discriminate|]. intros He.
     now apply (clean_reads (length a) a (le_n _)).
   Qed.
+
+  (** * The converse: everything [Reads] reads, [view] reads the same way *)
+  Lemma erase_all_app_some l1 l2 u1 u2 : erase_all l1 = Some u1 -> erase_all l2 = Some u2 -> erase_all (l1 ++ l2) = Some (u1 ++ u2).
+  Proof.
+    revert u1. induction l1 as [|s l1 IH]; intros u1; cbn [List.app erase_all]; [intros [= <-]; auto|].
+    destruct (erase s) as [x|]; [|discriminate]. destruct (erase_all l1) as [xs|]; [|discriminate].
+    intros [= <-] H2. now rewrite (IH xs eq_refl H2).
+  Qed.
+
+  (** the letters of declared flags, then whatever [tl] reads as *)
+  Lemma read_letters_flags fs us : Flags D fs us -> forall tl next used w,
+    (forall src, exists syms, read_letters RD tl next src = Some (syms, used) /\ erase_all syms = Some w) ->
+    forall src, exists syms', read_letters RD (fs ++ tl) next src = Some (syms', used) /\ erase_all syms' = Some (us ++ w).
+  Proof.
+    induction 1 as [|c o fs us Hl Hb Hf IH]; intros tl next used w Ht src; cbn [List.app]; [apply Ht|].
+    cbn [read_letters rd_lookup rd_isflag rdecl_of]. rewrite Hl, Hb.
+    destruct (IH tl next used w Ht []) as (syms1 & E1 & W1). rewrite E1.
+    exists (O o s_true src :: syms1). split; [reflexivity|]. cbn [erase_all erase List.app]. now rewrite W1.
+  Qed.
+
+  Lemma q1_walk_flags_end fs us : Flags D fs us -> forall j, q1_walk RD fs j = false.
+  Proof.
+    induction 1 as [|c o fs us Hl Hb Hf IH]; intros j; cbn [q1_walk]; [reflexivity|].
+    rewrite (letter_not_eq D Hnoeq c o Hl). cbn [rd_lookup rd_isflag rdecl_of]. rewrite Hl, Hb. apply IH.
+  Qed.
+
+  Lemma q1_token_not_dashed t : dashed t = false -> q1_token RD t = false.
+  Proof. unfold q1_token. destruct t as [|d rest]; [reflexivity|]. cbn [dashed]. now intros ->. Qed.
+
+  Lemma q1_token_long t : prefix_b s_dd t = true -> q1_token RD t = false.
+  Proof. unfold q1_token. destruct t as [|d rest]; [reflexivity|]. intros ->. now rewrite andb_false_r. Qed.
+
+  Lemma not_dashed_not_dd v : dashed v = false -> str_eqb v s_dd = false.
+  Proof. destruct v as [|c0 v0]; [reflexivity|]. cbn. now intros ->. Qed.
+
+  (** a token "-" ++ letters whose third character is not '=' is read letter by letter *)
+  Lemma read_token_fold l next : l <> [] -> second_ok l -> prefix_b s_dd (c_dash :: l) = false ->
+    read_token RD (c_dash :: l) next = read_letters RD l next [c_dash :: l].
+  Proof.
+    intros Hne Hso Hp. unfold read_token. rewrite Hp. destruct l as [|n0 [|e value]]; [congruence | reflexivity |].
+    unfold second_ok in Hso. now rewrite Hso.
+  Qed.
+
+  Lemma q1_token_fold l : q1_token RD (c_dash :: l) = negb (prefix_b s_dd (c_dash :: l)) && q1_walk RD l 1.
+  Proof. unfold q1_token. now rewrite Ascii.eqb_refl. Qed.
+
+  Theorem reads_view a u : Reads D a u -> erase_all (read RD a) = Some u /\ has_q1 RD a = false.
+  Proof.
+    induction 1 as [ | rest | t rest u Hp Hr [IH1 IH2]
+                   | n o v rest u [Hlong Hne] Hl Hv Hr [IH1 IH2] | n o rest u [Hlong Hne] Hl Hb Hr [IH1 IH2]
+                   | n o v rest u [Hlong Hne] Hl Hb Hd Hr [IH1 IH2]
+                   | x o v rest u Hl Hv Hr [IH1 IH2]
+                   | fs us rest u Hnf Hf Hr [IH1 IH2]
+                   | fs us x o v rest u Hf Hl Hb Hv Hq Hr [IH1 IH2]
+                   | fs us x o v rest u Hf Hl Hb Hd Hr [IH1 IH2] ].
+    - split; reflexivity.
+    - cbn [read has_q1]. rewrite str_eqb_refl. split; [|reflexivity]. cbn [erase_all erase]. now rewrite erase_all_P.
+    - (* positional *)
+      cbn [read has_q1]. rewrite (positional_not_dd t Hp).
+      assert (E : str_eqb t s_dash || negb (dashed t) = true).
+      { destruct Hp as [->|Hd]; [reflexivity | rewrite Hd; now rewrite orb_true_r]. }
+      rewrite E. cbn [erase_all erase]. rewrite IH1. split; [reflexivity|]. rewrite IH2, orb_false_r.
+      destruct Hp as [->|Hd]; [reflexivity | now apply q1_token_not_dashed].
+    - (* --name=value *)
+      destruct (long_shape D o n Hl Hlong Hne (c_eq :: v)) as (S1 & S2 & S3 & S4).
+      cbn [read has_q1]. rewrite S2, S1, S3. cbn [orb negb]. unfold read_token. rewrite S4.
+      rewrite (split_eq_app _ _ Hne). cbn [rd_lookup rd_isflag rdecl_of]. rewrite Hl. destruct v as [|e v']; [congruence|].
+      cbn [List.app erase_all erase]. rewrite IH1. split; [reflexivity|]. now rewrite (q1_token_long _ S4), IH2.
+    - (* --flag *)
+      destruct (long_shape D o n Hl Hlong Hne []) as (S1 & S2 & S3 & S4). rewrite app_nil_r in *.
+      cbn [read has_q1]. rewrite S2, S1, S3. cbn [orb negb]. unfold read_token. rewrite S4, Hne.
+      cbn [rd_lookup rd_isflag rdecl_of]. rewrite Hl, Hb. cbn [List.app erase_all erase]. rewrite IH1.
+      split; [reflexivity|]. now rewrite (q1_token_long _ S4), IH2.
+    - (* --name value *)
+      destruct (long_shape D o n Hl Hlong Hne []) as (S1 & S2 & S3 & S4). rewrite app_nil_r in *.
+      cbn [read has_q1]. rewrite S2, S1, S3. cbn [orb negb hd_error]. unfold read_token. rewrite S4, Hne.
+      cbn [rd_lookup rd_isflag rdecl_of]. rewrite Hl, Hb, Hd. cbn [List.app erase_all erase]. rewrite IH1.
+      split; [reflexivity|]. rewrite (q1_token_long _ S4). cbn [orb has_q1].
+      rewrite (not_dashed_not_dd v Hd), (q1_token_not_dashed v Hd). exact IH2.
+    - (* -x=value *)
+      pose proof (letter_not_dash D Hnodd Hnoeq x o Hl) as Hx.
+      destruct (short_shape x Hx (c_eq :: v)) as (S1 & S2 & S3 & S4).
+      cbn [read has_q1]. rewrite S2, S1, S3. cbn [orb negb]. unfold read_token. rewrite S4, Ascii.eqb_refl.
+      cbn [rd_lookup rd_isflag rdecl_of]. rewrite Hl. destruct v as [|e v']; [congruence|].
+      cbn [List.app erase_all erase]. rewrite IH1. split; [reflexivity|].
+      assert (Q : q1_token RD (c_dash :: x :: c_eq :: e :: v') = false).
+      { rewrite q1_token_fold, S4. cbn [andb negb q1_walk]. rewrite (letter_not_eq D Hnoeq x o Hl).
+        cbn [rd_lookup rd_isflag rdecl_of]. rewrite Hl. destruct (oi_isbool D o); [|reflexivity].
+        cbn [q1_walk]. now rewrite Ascii.eqb_refl. }
+      now rewrite Q, IH2.
+    - (* -abc *)
+      assert (Hfirst : match fs with c :: _ => Ascii.eqb c c_dash = false | [] => False end).
+      { pose proof (flags_first D Hnodd Hnoeq fs us [] Hf (or_intror Hnf)) as X. now rewrite app_nil_r in X. }
+      destruct (fold_shape fs Hfirst) as (S1 & S2 & S3 & S4).
+      assert (Hso : second_ok fs).
+      { pose proof (flags_second_ok D Hnoeq fs us [] Hf I (or_intror I)) as X. rewrite app_nil_r in X. apply X. now destruct fs. }
+      cbn [read has_q1]. rewrite S2, S1, S3. cbn [orb negb]. rewrite (read_token_fold fs _ Hnf Hso S4).
+      destruct (read_letters_flags fs us Hf [] (hd_error rest) false []
+                  (fun src => ex_intro _ [] (conj eq_refl eq_refl)) [c_dash :: fs]) as (syms' & E & W).
+      rewrite app_nil_r in E, W. rewrite E. rewrite (erase_all_app_some _ _ _ _ W IH1). split; [reflexivity|].
+      rewrite q1_token_fold, S4, (q1_walk_flags_end fs us Hf 1). exact IH2.
+    - (* -abxVALUE *)
+      assert (Hxd : Ascii.eqb x c_dash = false) by (now apply (letter_not_dash D Hnodd Hnoeq) with o).
+      assert (Hfirst : match fs ++ x :: v with c :: _ => Ascii.eqb c c_dash = false | [] => False end)
+        by (apply (flags_first D Hnodd Hnoeq fs us (x :: v) Hf); now left).
+      destruct (fold_shape _ Hfirst) as (S1 & S2 & S3 & S4).
+      assert (Hso : second_ok (fs ++ x :: v)).
+      { apply (flags_second_ok D Hnoeq fs us (x :: v) Hf); [destruct v; [exact I | exact Hq] | now right |].
+        destruct fs; [exact I | now apply (letter_not_eq D Hnoeq) with o]. }
+      cbn [read has_q1]. rewrite S2, S1, S3. cbn [orb negb].
+      rewrite (read_token_fold (fs ++ x :: v) _ ltac:(destruct fs; discriminate) Hso S4).
+      assert (Htl : forall src, exists syms, read_letters RD (x :: v) (hd_error rest) src = Some (syms, false) /\ erase_all syms = Some [VO o v]).
+      { intros src. cbn [read_letters rd_lookup rd_isflag rdecl_of]. rewrite Hl, Hb. destruct v as [|e v']; [congruence|].
+        eexists. split; reflexivity. }
+      destruct (read_letters_flags fs us Hf (x :: v) (hd_error rest) false [VO o v] Htl [c_dash :: fs ++ x :: v]) as (syms' & E & W).
+      rewrite E. rewrite (erase_all_app_some _ _ _ _ W IH1). rewrite <- app_assoc. split; [reflexivity|].
+      rewrite q1_token_fold, S4, (q1_walk_flags fs us Hf x o v 1 Hl Hb). cbn [negb andb].
+      assert (X : match v with e :: _ => Ascii.eqb e c_eq | [] => false end = false) by (destruct v; [reflexivity | exact Hq]).
+      rewrite X, andb_false_r. exact IH2.
+    - (* -abx VALUE *)
+      assert (Hxd : Ascii.eqb x c_dash = false) by (now apply (letter_not_dash D Hnodd Hnoeq) with o).
+      assert (Hfirst : match fs ++ [x] with c :: _ => Ascii.eqb c c_dash = false | [] => False end)
+        by (apply (flags_first D Hnodd Hnoeq fs us [x] Hf); now left).
+      destruct (fold_shape _ Hfirst) as (S1 & S2 & S3 & S4).
+      assert (Hso : second_ok (fs ++ [x])).
+      { apply (flags_second_ok D Hnoeq fs us [x] Hf); [exact I | now right |].
+        destruct fs; [exact I | now apply (letter_not_eq D Hnoeq) with o]. }
+      cbn [read has_q1]. rewrite S2, S1, S3. cbn [orb negb hd_error].
+      rewrite (read_token_fold (fs ++ [x]) _ ltac:(destruct fs; discriminate) Hso S4).
+      assert (Htl : forall src, exists syms, read_letters RD [x] (Some v) src = Some (syms, true) /\ erase_all syms = Some [VO o v]).
+      { intros src. cbn [read_letters rd_lookup rd_isflag rdecl_of]. rewrite Hl, Hb, Hd. eexists. split; reflexivity. }
+      destruct (read_letters_flags fs us Hf [x] (Some v) true [VO o v] Htl [c_dash :: fs ++ [x]]) as (syms' & E & W).
+      rewrite E. rewrite (erase_all_app_some _ _ _ _ W IH1). rewrite <- app_assoc. split; [reflexivity|].
+      rewrite q1_token_fold, S4, (q1_walk_flags fs us Hf x o [] 1 Hl Hb). cbn [negb andb]. rewrite andb_false_r. cbn [orb has_q1].
+      rewrite (not_dashed_not_dd v Hd), (q1_token_not_dashed v Hd). exact IH2.
+  Qed.
+
+  (** [Reads] is exactly the clean readings of [RefSem.read] *)
+  Corollary reads_iff_view a u : Reads D a u <-> view D a = Some u.
+  Proof.
+    split; [|apply view_reads]. intros H. destruct (reads_view a u H) as [E Q]. unfold view. now rewrite Q.
+  Qed.
 End Read.
 
 (** * Command level: decidable hypotheses *)
